@@ -30,7 +30,9 @@ def folding_guards(b, blk):
             continue
         is_opt = (c["kind"] == "place" and "url_encode_form" in place_fields(c["place"])) or (c["kind"] == "local" and b.slice([c["local"]]).has_field("url_encode_form") and not b.slice([c["local"]]).calls)
         is_ct = False
-        if c["kind"] == "call" and re.search(r"PartialEq::eq$", c["callee"]):
+        ne = False
+        if c["kind"] == "call" and re.search(r"PartialEq::(eq|ne)$", c["callee"]):
+            ne = c["callee"].endswith("::ne")
             t = c["term"]
             s0, s1 = b.slice_op(t["args"][0]), b.slice_op(t["args"][1])
             vals = s0.const_values() + s1.const_values()
@@ -41,6 +43,8 @@ def folding_guards(b, blk):
             tr = b.truth_of_edge(a, s)
             if tr is not None and c.get("neg"):
                 tr = not tr
+            if tr is not None and is_ct and ne:
+                tr = not tr  # `a != b` holds on the edge where the comparison is false
             if tr is True and blk not in b.reachable_avoiding_edge(0, a, s):
                 if is_opt:
                     opt = True
@@ -170,7 +174,8 @@ def r2(ctx):
     bd = [d for d in b.defs().get(body, []) if d["kind"] == "assign"]
     if len(bd) == 1:
         sl = b.slice_op(bd[0]["stmt"]["rv"]["op"])
-        if not (sl.has_const_value("") and not sl.params and len([c for c in sl.calls if not re.search(r"From::from$|Bytes::new$|Into::into$", c[1]["callee"])]) == 0):
+        empty = sl.has_const_value("") or sl.has_const_value(b"") or sl.has_call(r"bytes::Bytes::new$|Default::default$")
+        if not (empty and not sl.params and len([c for c in sl.calls if not re.search(r"From::from$|Bytes::new$|Into::into$|Bytes::from_static$|Default::default$", c[1]["callee"])]) == 0):
             yield VIOL("C12-R2", "from_request_parts/folded-body", "the folded body is not the empty constant", where=loc(bd[0]["stmt"]["span"]))
         else:
             yield PASS("C12-R2", "from_request_parts/folded-body", "body = Bytes::from(\"\") when folded", [loc(bd[0]["stmt"]["span"])])
@@ -268,6 +273,13 @@ def r5(ctx):
     ds = b.slice_op(dec[1]["args"][1])
     if param_by_name(b, "body") not in ds.locals:
         yield VIOL("C12-R5", "from_request_parts/decoder-input", "the decoder is not applied to the request body", where=b.span_of_block(dec[0]))
+    else:
+        from c02 import PARTIAL
+        part = [c_ for c_ in ds.callee_names() if re.search(PARTIAL, c_)] + [t_["callee"] for _, t_ in ds.calls if re.search(r"ops::Index(Mut)?::index(_mut)?$", t_["callee"]) and "Range" in t_.get("resolved_full", "")]
+        if part:
+            yield VIOL("C12-R5", "from_request_parts/decoder-input-whole", "the decoder is applied to a part of the body only (through %s): bytes of the last/first parameter are dropped before folding" % sorted(set(part)), where=b.span_of_block(dec[0]))
+        else:
+            yield PASS("C12-R5", "from_request_parts/decoder-input-whole", "decode(&body as a whole)", [site(b, dec[0], "decode")])
     # Err edge of decode -> InvalidBodyEncoding ; None of encoding_from_whatwg_label -> InvalidBodyEncoding
     kinds = {}
     for eb, i, s in err_sites(b):
@@ -309,3 +321,61 @@ def r5(ctx):
             yield VIOL("C12-R5", "content-type/charset-case", "the charset parameter name is compared case-sensitively (`Charset=` would be ignored and the body decoded as UTF-8)", where=c.span_of_block(bi))
         else:
             yield PASS("C12-R5", "content-type/charset-case", "parameter name lower-cased before comparison with \"charset\"", [site(c, bi, "eq")])
+
+
+@M.rule("C12-R6", "Content-Type parsing: only an absent header gives None; the media type is the trimmed first ';' part widened from Latin-1; any header bytes are accepted")
+def r6(ctx):
+    c = ctx.fn(CTC)
+    g = one(c.calls(r"HeaderMap::<T>::get$"), "headers.get(CONTENT_TYPE)")
+    ctx.count(3)
+    bodies = [c] + ctx.facts.find_bodies("^" + re.escape(CTC) + r"::\{closure#\d+\}")
+    # (a) "no Content-Type" is reported only when the header is absent: every None / `?`-residual written to the
+    # return place is controlled by the discriminant of the get() result itself and by nothing else
+    nones = [bi for bi, i, s in c.aggregates(adt=r"^std::option::Option$", variant="None") if s["place"]["local"] == 0 and not s["place"]["proj"]]
+    nones += [bi for bi, t in c.calls(r"FromResidual::from_residual$") if t["dest"]["local"] == 0]
+    bad = []
+    for nb in nones:
+        okn = False
+        for a, s_, cnd, truth in guard_conditions(c, nb):
+            if cnd["kind"] == "discr":
+                od = c.origin_def({"copy": {"local": cnd["place"]["local"], "proj": []}})
+                if od and od[0] == "def" and od[1]["kind"] == "call" and re.search(r"ops::Try::branch$", od[1]["term"]["callee"]):
+                    od = c.origin_def(od[1]["term"]["args"][0])  # `headers.get(CONTENT_TYPE)?`
+                if od and od[0] == "def" and od[1]["kind"] == "call" and od[1]["block"] == g[0]:
+                    okn = True
+                    continue
+            bad.append((nb, cnd))
+        if not okn:
+            bad.append((nb, None))
+    if bad:
+        yield VIOL("C12-R6", "content-type/none-only-when-absent", "get_content_type_and_charset can report \"no Content-Type\" for a request that has one (a None return depends on more than the header's absence): the form body would not be folded and an unknown charset not refused", where=c.span_of_block(bad[0][0]))
+    else:
+        yield PASS("C12-R6", "content-type/none-only-when-absent", "%d None return(s), each on the None edge of headers.get(\"content-type\") only" % len(nones), [site(c, x, "None") for x in nones])
+    # (b) no fallible / lossy text conversion of the header bytes
+    conv = [(b_, bi, t) for b_ in bodies for bi, t in b_.calls(r"HeaderValue::to_str$|str::from_utf8(_unchecked|_mut)?$|String::from_utf8(_lossy|_unchecked)?$|str::converts::from_utf8\w*$")]
+    if conv:
+        yield VIOL("C12-R6", "content-type/bytes-not-text", "the Content-Type value is converted with `%s`, which fails or alters bytes >= 0x80 (header values are arbitrary bytes; the parser works on Latin-1)" % conv[0][2]["callee"], where=conv[0][0].span_of_block(conv[0][1]))
+    else:
+        yield PASS("C12-R6", "content-type/bytes-not-text", "no UTF-8/ASCII-only conversion of the header value", [])
+    # (c) the media type: first element of split(';') of the header bytes, trimmed, widened by latin1_to_string
+    aggs = c.aggregates(adt=r"canonical::ContentTypeCharset$")
+    if not aggs:
+        raise AnchorMissing("ContentTypeCharset construction in get_content_type_and_charset")
+    probs = []
+    for bi, i, s in aggs:
+        rv = s["rv"]
+        if "content_type" not in rv.get("fields", []):
+            probs.append("content_type field not set")
+            continue
+        sl = c.slice_op(rv["ops"][rv["fields"].index("content_type")])
+        trimmed = sl.has_call(r"trim_ascii$|str>::trim$|str>::trim_matches$") or any(re.search(r"trim_ascii$", x.get("fn", "") or "") for x in sl.consts)
+        if not trimmed:
+            probs.append("the media type is not trimmed (`application/x-www-form-urlencoded ;charset=..` would not be recognised as a form)")
+        if not sl.has_call(r"HeaderMap::<T>::get$"):
+            probs.append("the media type does not derive from the header value")
+        if not (sl.has_call(r"slice::<impl \[T\]>::split$|str>::split$|slice::<impl \[T\]>::splitn$|str>::splitn$|split_once$|Iterator::position$|str>::find$") ):
+            probs.append("the media type is not cut at the first ';'")
+    if probs:
+        yield VIOL("C12-R6", "content-type/media-type", "; ".join(sorted(set(probs))), where=c.span_of_block(aggs[0][0]))
+    else:
+        yield PASS("C12-R6", "content-type/media-type", "content_type <= trim_ascii(first ';'-separated part of the header bytes)", [site(c, aggs[0][0], "ContentTypeCharset")])
